@@ -50,4 +50,16 @@ class PoolCheck(Check):
         lines = o.splitlines()
         if rc != 0 or len(lines) != n:
             lines = lines[:n] + ["<impl rc=%d: %s>" % (rc, e.strip()[-200:].replace("\n", " "))] * (n - len(lines))
+        # a hang is believed only when it is confirmed: every case reported as hanging runs once more, alone
+        hung = [i for i, l in enumerate(lines) if l.startswith("<hang")]
+        if hung and not casefile.endswith(".confirm"):
+            cases = [l.rstrip("\n") for l in open(casefile) if l.strip() and not l.startswith("#")]
+            for i in hung[:6]:
+                cf = casefile + ".confirm"
+                with open(cf, "w") as f:
+                    f.write(cases[i] + "\n")
+                rc2, o2, e2 = run([self.hbin(), cf], timeout=self.impl_timeout(), env=env)
+                l2 = o2.splitlines()
+                if len(l2) == 1:
+                    lines[i] = l2[0] + (" (confirmed)" if l2[0].startswith("<hang") else "")
         return lines
